@@ -1016,6 +1016,9 @@ def all_widgets(widget, _internal=False, _seen=None):
     elif hasattr(widget, "contents"):
         for item in widget.contents:
             subs.append((item[0], _internal))
+    wrapped = getattr(widget, "_wrapped_widget", None)  # LineBox: WidgetDecoration + delegate mixin, not a WidgetWrap
+    if wrapped is not None:
+        subs.append((wrapped, True))
     for w, internal in subs:
         yield from all_widgets(w, internal, _seen)
 
